@@ -26,10 +26,15 @@
 (* Three uses:                                                             *)
 (*  MC    IsolationMC.cfg: the reference design (clone on write, replace   *)
 (*        the stored cell) satisfies the three statements on every         *)
-(*        behaviour over a small heap; IsolationNeg*.cfg: each of the      *)
-(*        three design deviations found in real code (keep the caller's    *)
-(*        cell; write in place; a read that edits what it hands out) is    *)
-(*        caught by the matching statement, so none of them is vacuous.    *)
+(*        behaviour over a small heap, from every construction of        *)
+(*        InitKinds; IsolationNeg*.cfg: each design deviation found in     *)
+(*        real code (keep the caller's cell - always, or only on the first *)
+(*        write to an object that holds nothing; write in place; a read    *)
+(*        that edits what it hands out; a write hook that edits the old    *)
+(*        value) is caught by the matching statement, so none is vacuous.  *)
+(*        IsolationFirstWritePresent.cfg: FirstWriteKeeps is unreachable   *)
+(*        when only "present" constructions are tried - which is why the   *)
+(*        walks carry the construction.                                    *)
 (*  Gen   IsolationGen.cfg: operation walks for a generic object with k    *)
 (*        operations: per step an operation index, an argument seed, the   *)
 (*        delay after which the caller scribbles on the arguments of that  *)
@@ -45,6 +50,11 @@ CONSTANTS NCells,     \* MC: number of heap cells
           StoreIn,    \* deviation: the write keeps the caller's cell as the stored one
           InPlace,    \* deviation: the write edits the stored cell instead of replacing it
           ReadEdits,  \* deviation: a read edits the cell it hands out (the stored one)
+          FirstWriteKeeps, \* deviation: like StoreIn, but only when nothing is stored yet (no message to merge into)
+          HookEditsOld,    \* deviation: a hook of the write (interceptor, callback handed the old value) writes into
+                           \* the old stored cell; the committed state and the result are nevertheless right
+          InitKinds,  \* configurations the object may be constructed in: "absent" (a Value without initial value,
+                      \* an empty Collection: nothing stored yet) and/or "present" (initial value / records)
           NCases,     \* Gen: number of walks
           MinOps, MaxOps,  \* Gen: walk length
           MaxLive     \* bound on live handles (harness forgets the oldest)
@@ -62,6 +72,8 @@ VARIABLES heap,       \* cell -> content now
 vars == <<heap, used, stored, model, dir, frozen, scribbled, last, c>>
 
 Cells   == 1..NCells
+Nil     == 0           \* "no stored cell": heap[Nil] is the constant Absent
+Absent  == -3
 Vals    == 0..(NVals - 1)
 Garbage == -1          \* what a scribble leaves in every field
 Edited  == -2          \* what a read that edits its result leaves
@@ -77,11 +89,15 @@ CrossAll(dr, fr, h, hs, e) ==
 
 Free == Cells \ used
 
+(* The object is constructed in one of the configurations of InitKinds: the  *)
+(* first write to an object that holds nothing yet takes a different path in *)
+(* real code (there is no old message to clone and merge into).              *)
 Init ==
-  /\ heap = [x \in Cells |-> 0]
-  /\ used = {1}
-  /\ stored = 1
-  /\ model = 0
+  /\ heap = [x \in 0..NCells |-> IF x = Nil THEN Absent ELSE 0]
+  /\ \E k \in InitKinds :
+       /\ stored = (IF k = "absent" THEN Nil ELSE 1)
+       /\ used = (IF k = "absent" THEN {} ELSE {1})
+       /\ model = (IF k = "absent" THEN Absent ELSE 0)
   /\ dir = [x \in Cells |-> "none"]
   /\ frozen = [x \in Cells |-> 0]
   /\ scribbled = {}
@@ -95,14 +111,14 @@ Write(v) ==
   /\ last' = "write" /\ c' = c /\ scribbled' = scribbled
   /\ model' = v
   /\ \E a \in Free :
-       IF StoreIn THEN
+       IF StoreIn \/ (FirstWriteKeeps /\ stored = Nil) THEN
          \* the caller's cell becomes the stored cell
          LET h1 == [heap EXCEPT ![a] = v]
              x1 == CrossAll(dir, frozen, h1, {a}, "in")
              x2 == CrossAll(x1.dir2, x1.frz, h1, {a, stored}, "out")
          IN /\ heap' = h1 /\ used' = used \cup {a} /\ stored' = a
             /\ dir' = x2.dir2 /\ frozen' = x2.frz
-       ELSE IF InPlace THEN
+       ELSE IF InPlace /\ stored # Nil THEN
          \* the stored cell is overwritten where it is
          LET h1 == [heap EXCEPT ![a] = v, ![stored] = v]
              x1 == CrossAll(dir, frozen, h1, {a}, "in")
@@ -110,9 +126,11 @@ Write(v) ==
          IN /\ heap' = h1 /\ used' = used \cup {a} /\ stored' = stored
             /\ dir' = x2.dir2 /\ frozen' = x2.frz
        ELSE
-         \* reference design: new cell n = clone(old) merged with a; the stored cell is replaced
+         \* reference design: new cell n = clone(old) (a fresh message if nothing is stored) merged with a; the
+         \* stored cell is replaced.  With HookEditsOld a hook also writes the new content into the old cell.
          \E n \in Free \ {a} :
-           LET h1 == [heap EXCEPT ![a] = v, ![n] = v]
+           LET h0 == [heap EXCEPT ![a] = v, ![n] = v]
+               h1 == IF HookEditsOld /\ stored # Nil THEN [h0 EXCEPT ![stored] = v] ELSE h0
                x1 == CrossAll(dir, frozen, h1, {a}, "in")
                x2 == CrossAll(x1.dir2, x1.frz, h1, {n, stored}, "out")
            IN /\ heap' = h1 /\ used' = used \cup {a, n} /\ stored' = n
@@ -122,10 +140,11 @@ Write(v) ==
 (* out the stored cell itself (no mask) or a copy (mask).                   *)
 Read ==
   /\ last' = "read" /\ c' = c /\ scribbled' = scribbled /\ model' = model /\ stored' = stored
-  /\ \/ LET h1 == IF ReadEdits THEN [heap EXCEPT ![stored] = Edited] ELSE heap
+  /\ \/ LET h1 == IF ReadEdits /\ stored # Nil THEN [heap EXCEPT ![stored] = Edited] ELSE heap
             x  == CrossAll(dir, frozen, h1, {stored}, "out")
         IN heap' = h1 /\ used' = used /\ dir' = x.dir2 /\ frozen' = x.frz
      \/ \E n \in Free :
+        stored # Nil /\
         LET h1 == [heap EXCEPT ![n] = heap[stored]]
             x  == CrossAll(dir, frozen, h1, {n}, "out")
         IN heap' = h1 /\ used' = used \cup {n} /\ dir' = x.dir2 /\ frozen' = x.frz
@@ -158,7 +177,7 @@ Spec == Init /\ [][Next]_vars
 ----------------------------------------------------------------------------
 (* The property                                                            *)
 TypeOK ==
-  /\ stored \in used /\ used \subseteq Cells
+  /\ stored \in used \cup {Nil} /\ used \subseteq Cells /\ heap[Nil] = Absent
   /\ \A x \in Cells : dir[x] \in {"none", "in", "out", "both"}
   /\ scribbled \subseteq used
 
@@ -194,10 +213,11 @@ Step(z) ==
   LET k == Pick(z, <<"call", "call", "call", "call", "call", "call", "call", "call", "call", "recheck">>)
   IN [kind |-> k, op |-> R(0..9999), arg |-> R(0..999999),
       delay |-> Pick(z, <<0, 0, 0, 0, 1, 1, 2, 5>>)]
-Walk(k) == [n |-> k, steps |-> [j \in 1..R(MinOps..MaxOps) |-> Step(k)]]
+\* init = the configuration the object is constructed in (one of InitKinds)
+Walk(k) == [n |-> k, init |-> R(InitKinds), steps |-> [j \in 1..R(MinOps..MaxOps) |-> Step(k)]]
 
 GenInit ==
-  /\ heap = [x \in Cells |-> 0] /\ used = {1} /\ stored = 1 /\ model = 0
+  /\ heap = [x \in 0..NCells |-> 0] /\ used = {1} /\ stored = 1 /\ model = 0
   /\ dir = [x \in Cells |-> "none"] /\ frozen = [x \in Cells |-> 0] /\ scribbled = {} /\ last = "init"
   /\ c \in { Walk(k) : k \in 1..NCases }
 GenNext == UNCHANGED vars
